@@ -1222,6 +1222,7 @@ class Lowerer:
             elif c['kind'] == 'CompoundStmt':
                 body = c
         params.extend(extra_params)
+        self.param_names = set(self.names)
         rett = return_type_of(qt(d))
         if self.decl.get('kind') in ('CXXConstructorDecl', 'CXXDestructorDecl'):
             rett = 'void'
